@@ -2,6 +2,7 @@
 import json
 import os
 import tempfile
+import time
 from types import SimpleNamespace
 
 import numpy as np
@@ -273,8 +274,8 @@ def defs_stream(ctx, want_model=True):
     n = {'quick': 60, 'thorough': 3000}[ctx.tier]
     pend = []
     for i in range(n):
-        if ctx.out_of_time():
-            break
+        if ctx.out_of_time() or (ctx.budget_s is not None and time.time() - ctx.t0 > 0.4 * ctx.budget_s):
+            break                     # leave the larger part of the time box to the sequence stream
         rng = ctx.rng('defs%d' % i)
         keys = rng.sample(filegen.DEF_KEYS[1:], rng.randint(2, 6))   # 'FOV' must be numeric (set_definition takes its max)
         defs = [(k, filegen.rand_def_value(rng)) for k in keys]
@@ -301,6 +302,70 @@ def defs_stream(ctx, want_model=True):
         flush(ctx, pend)
 
 
+# ---- ambient process state ------------------------------------------------------------------------------------------
+AMBIENTS = [
+    {'TZ': 'UTC', 'PYTHONHASHSEED': '0', 'LC_ALL': 'C', 'shift': 0.0, 'name': 'a.seq', 'sub': '.'},
+    {'TZ': 'Pacific/Kiritimati', 'PYTHONHASHSEED': '12345', 'LC_ALL': 'C.UTF-8', 'shift': 401 * 86400 + 7 * 3600.0, 'name': 'other name.v2.seq', 'sub': 'deep/er'},
+    {'TZ': 'America/Los_Angeles', 'PYTHONHASHSEED': 'random', 'LC_ALL': 'POSIX', 'shift': -(9000 * 86400 + 13 * 3600.0), 'name': 'x.seq', 'sub': 'w'},
+]
+
+
+def ambient_stream(ctx):
+    """the same sequence written in processes that differ in time zone, hash seed, locale, working directory, file
+    name and wall clock (shifted by more than a year in both directions): the bytes must not depend on any of it"""
+    import pickle
+    import subprocess
+    import sys
+    n = {'quick': 4, 'thorough': 40}[ctx.tier]
+    script = os.path.join(os.path.dirname(os.path.dirname(os.path.abspath(__file__))), 'ambient_writer.py')
+    for i in range(n):
+        if ctx.out_of_time():
+            break
+        rng = ctx.rng('ambient%d' % i)
+        seq, nb, _ = filegen.random_sequence(rng, n_blocks=rng.randint(1, 6), history=True)
+        if nb == 0:
+            continue
+        sig = rng.random() < 0.8
+        case = {'kind': 'ambient', 'index': i, 'create_signature': sig,
+                'ambients': [{k: v for k, v in a.items()} for a in AMBIENTS]}
+        with tempfile.TemporaryDirectory(prefix='pvC02amb') as d:
+            pk = os.path.join(d, 'seq.pickle')
+            with open(pk, 'wb') as f:
+                pickle.dump(seq, f)
+            here = os.path.join(d, 'parent.seq')
+            seq.write(here, create_signature=sig)
+            outs = [open(here, 'rb').read()]
+            procs = []
+            for a in AMBIENTS:
+                wd = os.path.join(d, a['sub'])
+                os.makedirs(wd, exist_ok=True)
+                env = dict(os.environ)
+                env.update({'TZ': a['TZ'], 'PYTHONHASHSEED': a['PYTHONHASHSEED'], 'LC_ALL': a['LC_ALL'], 'LANG': a['LC_ALL']})
+                out = os.path.join(wd, a['name'])
+                procs.append((a, out, subprocess.Popen([sys.executable, script, pk, a['name'], repr(a['shift']), '1' if sig else '0'],
+                                                       cwd=wd, env=env, stdout=subprocess.PIPE, stderr=subprocess.PIPE)))
+            bad = None
+            for a, out, p in procs:
+                so, se = p.communicate(timeout=300)
+                if p.returncode != 0 or not os.path.exists(out):
+                    bad = {'what': 'child failed', 'ambient': a, 'stderr': se.decode(errors='replace')[-400:]}
+                    break
+                outs.append(open(out, 'rb').read())
+        ctx.evaluated(('ambient', i))
+        ctx.count('ambient.sequences')
+        if bad:
+            ctx.fail('C02/ambient-writer-failed', case, bad)
+            continue
+        for k in range(1, len(outs)):
+            if outs[k] != outs[0]:
+                l0, lk = outs[0].decode(errors='replace').split('\n'), outs[k].decode(errors='replace').split('\n')
+                j = next((m for m in range(min(len(l0), len(lk))) if l0[m] != lk[m]), min(len(l0), len(lk)))
+                ctx.fail('C02/output-depends-on-ambient-state', case,
+                         {'ambient': AMBIENTS[k - 1], 'line': j, 'parent': l0[j] if j < len(l0) else None,
+                          'child': lk[j] if j < len(lk) else None})
+                break
+
+
 def flush(ctx, pend):
     lines = ['file.rw' + filemodel.encode_read(p['tok1'], p['sysr'])[len('file.read'):] for p in pend]
     outs = ctx.model(lines)
@@ -315,6 +380,7 @@ def flush(ctx, pend):
 
 def run(ctx):
     n_cases = {'quick': 100, 'thorough': 4000}[ctx.tier]
+    ambient_stream(ctx)
     defs_stream(ctx)
     pend = []
     for n in range(n_cases):
@@ -332,6 +398,9 @@ def run(ctx):
 
 
 def replay(ctx, case):
+    if case.get('kind') == 'ambient':
+        ambient_stream(ctx)
+        return {'case': case, 'result': 'ambient-state stream re-run; see failures'}
     if str(case.get('kind', '')).startswith('def'):
         defs_stream(ctx, want_model=False)
         return {'case': case, 'result': 'definitions stream re-run; see failures'}
